@@ -199,7 +199,7 @@ def _mpath(op, depth=3):
     return [op[1], op[2], f"g{op[3]}"][:depth]
 
 
-def model_lines(c):
+def model_lines(c, obs=None):
     t = c["t"]
     if t == "lv":
         return ["lv\tpack\t" + enc_list(c["xs"]), "lv\tunpack\t" + enc_str(lv_pack(*c["xs"]))]
